@@ -175,6 +175,8 @@ Section Typed.
   | AArr (body : areqs)
   | ABin (n : nat)
   | AEnd                                  (* ask whether all elements were loaded *)
+  | ATry (a : areq)                       (* try { a } catch (OutOfRange) { }: what the tuple loader does around its components *)
+  | AThrow (e : serr)                     (* the caller's own code throws (fixed-size array: count mismatch; tuple: size mismatch) *)
   with areqs := ANil | ACons (a : areq) (l : areqs)
   (* what a VisitKeys callback does with the key it is handed (SerializeMapImpl: convert the key, then load
      the value under that very key): nothing, throw, or one keyed load *)
@@ -196,7 +198,8 @@ Section Typed.
   | KNone                  (* child scope not opened *)
   | KByte (b : N)
   | KKeys (ks : list key)
-  | KIsEnd (b : bool).
+  | KIsEnd (b : bool)
+  | KCaught.               (* an OutOfRange was caught by the caller (ATry) *)
 
   (* observations, the error that ended the program if any, and "no array / byte-array child was
      left with elements unread" (the hypothesis of the _outside theorems, finding F14) *)
@@ -268,6 +271,14 @@ Section Typed.
   with spec_areq (o : opts) (vs : list mpv) (a : areq) {struct a} : spec_res * list mpv :=
     match a with
     | AEnd => (([KIsEnd (match vs with [] => true | _ => false end)], None, true), vs)
+    | AThrow e => (([], Some e, true), vs)
+    | ATry a' =>
+      (* THE PROPERTY: what is caught is the array's own "no more items" (nothing has moved); an OutOfRange raised
+         further inside a' is an error like any other *)
+      match vs, a' with
+      | [], (AGet _ | AObj _ | AArr _ | ABin _) => (([KCaught], None, true), vs)
+      | _, _ => spec_areq o vs a'
+      end
     | _ =>
       match vs with
       | [] => (([], Some SERange, true), vs)
@@ -290,7 +301,7 @@ Section Typed.
           | MBin bs => (bytes_child bs n, vs')
           | _ => (([KNone], None, true), vs)      (* not a byte array: the element stays for the array fallback *)
           end
-        | AEnd => (([], None, true), vs)
+        | _ => (([], None, true), vs)
         end
       end
     end
@@ -373,15 +384,6 @@ Fixpoint keys_distinct (ks : list key) : bool :=
   | k :: t => forallb (fun k' => negb (key_eq k k')) t && keys_distinct t
   end.
 
-(* every key equals itself: no NaN float / double key, at any depth *)
-Fixpoint keys_refl (v : mpv) : bool :=
-  match v with
-  | MArr l => forallb keys_refl l
-  | MMap kvs => forallb (fun kv => match kv with (k, x) =>
-                   match keyden k with Some kk => key_eq kk kk | None => true end && keys_refl x end) kvs
-  | _ => true
-  end.
-
 Fixpoint doc_ok (v : mpv) : bool :=
   match v with
   | MArr l => forallb doc_ok l
@@ -391,22 +393,3 @@ Fixpoint doc_ok (v : mpv) : bool :=
     && forallb (fun kv => doc_ok (snd kv)) kvs
   | _ => true
   end.
-
-(* programs that never load from inside a VisitKeys callback *)
-Fixpoint each_free_req (r : req) : bool :=
-  match r with
-  | RObj _ body => each_free_reqs body
-  | RArr _ body => each_free_areqs body
-  | REach _ => false
-  | _ => true
-  end
-with each_free_reqs (l : reqs) : bool :=
-  match l with RNil => true | RCons r l' => each_free_req r && each_free_reqs l' end
-with each_free_areq (a : areq) : bool :=
-  match a with
-  | AObj body => each_free_reqs body
-  | AArr body => each_free_areqs body
-  | _ => true
-  end
-with each_free_areqs (l : areqs) : bool :=
-  match l with ANil => true | ACons a l' => each_free_areq a && each_free_areqs l' end.
